@@ -50,7 +50,7 @@ def run_impl(P, cases):
     """run the implementation on all cases (forked workers; frappy is imported inside them)"""
     if not cases:
         return []
-    jobs = int(os.environ.get('VERIF_JOBS', '16'))
+    jobs = coqrun.default_jobs()
     if getattr(P, 'SERIAL', False) or len(cases) < 8 or jobs == 1:
         return [_worker((P.__name__, c)) for c in cases]
     ctx = mp.get_context('fork')
